@@ -190,6 +190,10 @@ pub struct CodegenContext {
 
     symbols: SymbolTable<Symbol>,
     undefined: HashSet<UndefinedSymbol>,
+    /// The symbols that were defined for the first time in this pass (and are still there): how many, and a digest of
+    /// their paths. The same for the previous pass.
+    new_symbols: (usize, u64),
+    prev_new_symbols: (usize, u64),
     current_scope: IdentifierPath,
     current_scope_nx: SymbolIndex,
 
@@ -246,6 +250,8 @@ impl CodegenContext {
             functions: HashMap::new(),
             symbols: SymbolTable::default(),
             undefined: HashSet::new(),
+            new_symbols: (0, 0),
+            prev_new_symbols: (0, 0),
             current_scope: IdentifierPath::empty(),
             current_scope_nx: SymbolIndex::new(0),
             next_macro_scope_id: 0,
@@ -340,6 +346,7 @@ impl CodegenContext {
         self.pass_idx += 1;
         self.next_macro_scope_id = 0;
         self.macro_nesting_exceeded = false;
+        self.prev_new_symbols = std::mem::take(&mut self.new_symbols);
 
         log::trace!("\n* NEXT PASS ({}) *", self.pass_idx);
         self.segments.values_mut().for_each(|s| s.reset());
@@ -440,6 +447,8 @@ impl CodegenContext {
                 let parent_nx = self.symbols.ensure_index(self.symbols.root, &parent);
                 let nx = self.symbols.insert(parent_nx, id, symbol);
                 log::trace!("Symbol was inserted with index: {:?}", nx);
+                self.new_symbols.0 += 1;
+                self.new_symbols.1 = self.new_symbols.1.wrapping_add(Self::path_digest(&path));
                 nx
             }
         };
@@ -468,11 +477,22 @@ impl CodegenContext {
         Ok(symbol_nx)
     }
 
+    fn path_digest(path: &IdentifierPath) -> u64 {
+        use std::hash::{Hash, Hasher};
+        let mut hasher = std::collections::hash_map::DefaultHasher::new();
+        path.to_string().hash(&mut hasher);
+        hasher.finish()
+    }
+
     fn remove_symbol<I: Into<IdentifierPath>>(&mut self, id: I) {
         let id = id.into();
         let path = self.current_scope.join(&id);
-        if let Some(nx) = self.symbols.try_index(self.symbols.root, path) {
+        if let Some(nx) = self.symbols.try_index(self.symbols.root, path.clone()) {
             self.symbols.remove(nx);
+            if self.new_symbols.0 > 0 {
+                self.new_symbols.0 -= 1;
+                self.new_symbols.1 = self.new_symbols.1.wrapping_sub(Self::path_digest(&path));
+            }
         }
     }
 
@@ -1598,9 +1618,15 @@ pub fn codegen(
 
             // If there were no other errors, then we should see if there was anything undefined.
             if errors.is_empty() {
-                // Nothing undefined anymore? Then we're done!
+                // Nothing undefined anymore? Then we're done! Unless this pass has defined symbols for the first time:
+                // whatever referred to such a name in front of its definition has resolved to a symbol of the same name
+                // in an outer scope, and only another pass makes it see the one it belongs to.
+                // (The same new symbols as in the previous pass again are no news.)
                 if ctx.undefined.is_empty() {
-                    break;
+                    if ctx.new_symbols.0 == 0 || ctx.new_symbols == ctx.prev_new_symbols {
+                        break;
+                    }
+                    prev_undefined.clear();
                 } else {
                     // If the same symbols are undefined that were undefined in the previous pass, they are truly undefined.
                     if ctx.undefined == prev_undefined {
